@@ -252,9 +252,15 @@ func (r *rwRT) ruleTmplConsumer() {
 func (r *rwRT) ruleTmplYieldFrom() {
 	c := r.c
 	c.min("RW.TMPL.YIELDFROM", 2)
-	fn := r.method("yieldFromRewriter", "rewriteYieldFrom")
-	c.fn(relName(fn))
-	pos := r.w.FnPos(fn)
+	// The delegation pass is driven the way rewriteFile drives it: the cursor callback that mkYieldFromRewriter
+	// returns is applied to a statement `YieldFrom(arg)`, and the node it is replaced by is the lowering. Which
+	// type or closure implements the pass is representation.
+	mk := r.w.FuncOpt(pathRw, "mkYieldFromRewriter")
+	if mk == nil {
+		undecided("constructor of the delegation pass (mkYieldFromRewriter) not found")
+	}
+	c.fn(relName(mk))
+	pos := r.w.FnPos(mk)
 	for _, argKind := range []string{"Ident", "CallExpr", "SelectorExpr", "IndexExpr"} {
 		for _, inst := range []bool{false, true} {
 			st := newState()
@@ -265,10 +271,41 @@ func (r *rwRT) ruleTmplYieldFrom() {
 				_, fun = r.identNode(st, "YieldFrom")
 			}
 			arg := Dyn{T: r.astPtr(argKind), V: leafSym("arg0")}
-			callRef, _ := r.heapNode(st, "CallExpr", map[string]AV{"Fun": fun, "Args": SliceV{Elems: []AV{arg}}, "Lparen": Sym{Name: "lp"}, "Rparen": Sym{Name: "rp"}})
-			in := r.interp(rwConfig{root: fn, boundaries: map[string]bool{"rangeIter": false, "checkYieldCall": true, "rewriteYieldFrom": false}})
+			_, call := r.heapNode(st, "CallExpr", map[string]AV{"Fun": fun, "Args": SliceV{Elems: []AV{arg}}, "Lparen": Sym{Name: "lp"}, "Rparen": Sym{Name: "rp"}})
+			_, stmt := r.heapNode(st, "ExprStmt", map[string]AV{"X": call})
+			in := r.interp(rwConfig{root: mk, boundaries: map[string]bool{"rangeIter": false, "checkYieldCall": true, "rewriteYieldFrom": false}})
+			in.MaxDepth = 16
 			in.Fields["r.rewriter.coImportedName"] = mkString("co")
-			outs := in.Run(st, fn, []AV{Sym{Name: "r", NN: true}, callRef}, nil)
+			in.Fields["r.coImportedName"] = mkString("co")
+			in.OnCall = wrapOnCall(in.OnCall, func(cc *CallCtx) []Answer {
+				if cc.Fn != nil && cc.Fn.Name() == "Node" && cc.Fn.Signature.Recv() != nil && strings.Contains(cc.Fn.Signature.Recv().Type().String(), "astutil.Cursor") {
+					return []Answer{{Ret: []AV{stmt}, NoEvent: true}}
+				}
+				if cc.Fn != nil && inRw(cc.Fn) && cc.Fn.Name() == "isYieldFromCall" {
+					return []Answer{{Ret: []AV{unwrap(call), mkBool(true)}, NoEvent: true}}
+				}
+				return nil
+			})
+			var outs []Outcome
+			for _, o0 := range in.Run(st, mk, []AV{Sym{Name: "r", NN: true}, Sym{Name: "pkg", NN: true}}, nil) {
+				if o0.Panicked || len(o0.Ret) != 1 {
+					continue
+				}
+				for _, o := range in.Apply(o0.St, o0.Ret[0], []AV{Sym{Name: "cursor", NN: true}, Sym{Name: "pkg", NN: true}}) {
+					if o.Panicked {
+						outs = append(outs, o)
+						continue
+					}
+					// the lowering is what the statement is replaced by
+					edits := cursorEdits(o.St, 0)
+					if len(edits) == 1 && edits[0].Fn.Name() == "Replace" && len(edits[0].Args) == 2 {
+						o.Ret = []AV{edits[0].Args[1]}
+					} else {
+						o.Ret = []AV{Nil{}}
+					}
+					outs = append(outs, o)
+				}
+			}
 			r.account(in)
 			construct := fmt.Sprintf("YieldFrom(<%s>) explicit-instantiation=%v", argKind, inst)
 			var firstErr error
